@@ -158,6 +158,11 @@ Definition area_load (A : area) (g0 : regs) (cfg : list centry_a) : res regs :=
   | (_, Err k) => Err k
   end.
 
+(* XMCD.export keeps header.configurationBlockSize in step with the configuration block before it exports
+   (the other classes export their registers as they are) *)
+Definition area_export_now (A : area) (g : regs) (add_seal : bool) : res (list N) :=
+  if a_kind A =? 7 then bind (fix_size A g) (fun g1 => area_export A g1 add_seal) else area_export A g add_seal.
+
 (* ------------------------------------------------------------------ parse *)
 Definition check_tag (A : area) (g : regs) : res regs :=
   match a_tag A with
@@ -288,7 +293,7 @@ Definition cfg_entries (g0 : regs) (c : list (list N * cpay)) : res (list centry
 
 (* ------------------------------------------------------------------ XMCD extras *)
 Definition xmcd_crc (A : area) (g : regs) : res (list N) :=
-  bind (area_export A g false) (fun b => Ok (be_enc 4 (crc CRC32_MPEG2 b))).
+  bind (area_export_now A g false) (fun b => Ok (be_enc 4 (crc CRC32_MPEG2 b))).
 
 (* ------------------------------------------------------------------ TrustZone (not register backed: a table of 32-bit presets) *)
 Definition tz_value (v : value) : res Z :=
@@ -433,15 +438,15 @@ Definition run_area_raw (A : area) (fn : Z) (args : list value) : value :=
           match area_load A g0 cfg with
           | Err k => VList [VErr k]
           | Ok g =>
-              let e1 := area_export A g false in
+              let e1 := area_export_now A g false in
               let p := if a_kind A =? 8 then Err E_NA else bind e1 (fun b => area_parse A g0 b) in
               let g3 := roundtrip g in
               VList [VList []; snap_raw g; vbytes e1;
-                     vres (fun _ => VList []) p; vbytes (bind p (fun g2 => area_export A g2 false)); vres snap_raw p;
-                     vcfg (area_get_config A g); vbytes (bind g3 (fun g3 => area_export A g3 false)); vres snap_raw g3;
+                     vres (fun _ => VList []) p; vbytes (bind p (fun g2 => area_export_now A g2 false)); vres snap_raw p;
+                     vcfg (area_get_config A g); vbytes (bind g3 (fun g3 => area_export_now A g3 false)); vres snap_raw g3;
                      (if a_kind A =? 9 then vres (fun l => VList (map VInt l)) (option_words A g) else VList []);
                      (if a_kind A =? 9 then vres (fun l => VList (map VInt l)) (bind g3 (option_words A)) else VList []);
-                     (if zb seal then vbytes (area_export A g true) else VList []);
+                     (if zb seal then vbytes (area_export_now A g true) else VList []);
                      (match rotkh with [] => VList [] | _ => vbytes (area_export_rotkh A g rotkh) end);
                      (if a_kind A =? 7 then vbytes (xmcd_crc A g) else VList [])]
           end
@@ -451,8 +456,8 @@ Definition run_area_raw (A : area) (fn : Z) (args : list value) : value :=
       | Err k => VList [VErr k]
       | Ok g =>
           let g3 := roundtrip g in
-          VList [VList []; vbytes (area_export A g false); snap_raw g; vcfg (area_get_config A g);
-                 vbytes (bind g3 (fun g3 => area_export A g3 false))]
+          VList [VList []; vbytes (area_export_now A g false); snap_raw g; vcfg (area_get_config A g);
+                 vbytes (bind g3 (fun g3 => area_export_now A g3 false))]
       end
   | _, _ => VErr E_BADCASE
   end.
